@@ -4,8 +4,7 @@ coq/Lib/PyTime.v.  It walks the Python ast of exactly those functions, types eve
 sub-expression from the annotations, and stops with "untranslatable: <why> at file:line" on
 anything outside the subset it knows the meaning of (it never guesses).
 
-usage: py2v.py <repo> <outdir>      writes <outdir>/GenUtil.v, GenPrio.v, GenStr.v, GenJobUtil.v
-exit status: 0 translated, 3 untranslatable (message on stdout), 2 usage/IO error
+usage: py2v.py <repo> <outdir>      writes <outdir>/Gen*.v and status.json (per file: translated | untranslatable: ...)
 """
 import ast
 import os
@@ -352,9 +351,10 @@ def translate_module(path, want, header_extra=""):
 
 
 TARGETS = [
-    ("GenUtil.v", "scheduler/util.py",
+    ("GenOccur.v", "scheduler/util.py",
      ["days_to_weekday", "next_daily_occurrence", "next_hourly_occurrence", "next_minutely_occurrence",
-      "next_weekday_time_occurrence", "are_times_unique"]),
+      "next_weekday_time_occurrence"]),
+    ("GenDup.v", "scheduler/util.py", ["are_times_unique"]),
     ("GenPrio.v", "scheduler/prioritization.py",
      ["constant_weight_prioritization", "linear_priority_function"]),
     ("GenStr.v", "scheduler/base/scheduler_util.py", ["str_cutoff"]),
@@ -367,16 +367,23 @@ def main():
         return 2
     repo, outdir = sys.argv[1], sys.argv[2]
     os.makedirs(outdir, exist_ok=True)
-    try:
-        for fname, src, want in TARGETS:
+    status = {}
+    for fname, src, want in TARGETS:
+        try:
             text = translate_module(os.path.join(repo, src), want)
             with open(os.path.join(outdir, fname), "w") as fh:
                 fh.write(text)
-        print("translated " + ", ".join(f for f, _, _ in TARGETS))
-        return 0
-    except Untranslatable as e:
-        print(str(e))
-        return 3
+            status[fname] = "translated"
+        except Untranslatable as e:
+            status[fname] = str(e)
+        except (OSError, SyntaxError) as e:
+            status[fname] = "untranslatable: cannot read/parse %s: %s" % (src, e)
+    import json
+    with open(os.path.join(outdir, "status.json"), "w") as fh:
+        json.dump(status, fh, indent=1)
+    for k, v in status.items():
+        print(k, v)
+    return 0
 
 
 if __name__ == "__main__":
